@@ -1,7 +1,7 @@
 (* Property C19 — special-topology constructors, the leg permutation of TTNO.from_tensor and the
    Ising model builders.  Statements only; each is closed by `exact`. *)
 From Coq Require Import List Arith ZArith Permutation.
-From PTN Require Import TTN.Store TTN.Inv Tree.RTree Special.Chain Special.ChainProofs Models.Ising Models.IsingProofs.
+From PTN Require Import TTN.Store TTN.Inv Tree.RTree Special.Chain Special.ChainProofs Special.ChainUniv Models.Ising Models.IsingProofs.
 Import ListNotations.
 
 (* ---- MatrixProductTree.from_tensor_list: all lengths, all root positions, all tensor shapes ------ *)
@@ -193,6 +193,180 @@ Theorem C19_chain_is_grid_row : forall n : nat,
 Proof. exact chain_pairs_is_grid_row. Qed.
 Print Assumptions C19_chain_is_grid_row.
 
+(* ---- universal versions (Special/ChainUniv.v): every size, by induction ------------------------------------ *)
+(* STAR.  The repaired product-state helper (bug = false) accepts every valid parameter set: any number of
+   chains nch >= 0, any chain length clen >= 0 (clen = 0: no chain node is created and `chains` stays empty),
+   dimension >= 1, 0 <= state value < dimension.  The node dictionary is the closed form star_nodes (centre,
+   then chain after chain), the root is the centre, `chains` is the documented list of lists, the value
+   multi-indices are star_values, and the store invariant holds *)
+Theorem C19_star_universal : forall sv dim clen nch : Z,
+  check_ps sv dim = true -> (0 <= clen)%Z -> (0 <= nch)%Z ->
+  exists m, star_cps false sv dim clen nch
+            = Some (m, star_values (Z.to_nat sv) (Z.to_nat clen) (Z.to_nat nch))
+    /\ nodes (sst m) = star_nodes (Z.to_nat dim) (Z.to_nat clen) (Z.to_nat nch)
+    /\ root (sst m) = Some center_id
+    /\ chains m = star_chains (Z.to_nat clen) (Z.to_nat nch)
+    /\ slabels m = star_labels (Z.to_nat clen) (Z.to_nat nch)
+    /\ wfb (sst m) = true.
+Proof. exact star_cps_univ. Qed.
+Print Assumptions C19_star_universal.
+
+Theorem C19_star_universal_nat : forall sv dim cl nc : nat, 1 <= dim -> sv < dim ->
+  exists m, star_cps false (Z.of_nat sv) (Z.of_nat dim) (Z.of_nat cl) (Z.of_nat nc) = Some (m, star_values sv cl nc)
+    /\ nodes (sst m) = star_nodes dim cl nc /\ root (sst m) = Some center_id
+    /\ length (nodes (sst m)) = 1 + nc * cl
+    /\ chains m = star_chains cl nc /\ slabels m = star_labels cl nc /\ wfb (sst m) = true.
+Proof. exact star_cps_univ_nat. Qed.
+Print Assumptions C19_star_universal_nat.
+
+(* the closed form, identifier by identifier: dictionary order, node count, the centre (children = the chain
+   heads in chain order, none when the chain length is 0), chain node (c, j) (parent = previous chain node or
+   the centre, single child = next chain node except for the last; shape [1;1;d], last [1;d]) *)
+Theorem C19_star_keys : forall d cl nc : nat,
+  akeys (star_nodes d cl nc) = center_id :: flat_map (fun c => map (arm_id (S nc) c) (seq 0 cl)) (seq 0 nc).
+Proof. exact star_nodes_keys. Qed.
+Print Assumptions C19_star_keys.
+
+Theorem C19_star_count : forall d cl nc : nat, length (star_nodes d cl nc) = 1 + nc * cl.
+Proof. exact star_nodes_length. Qed.
+Print Assumptions C19_star_count.
+
+Theorem C19_star_keys_distinct : forall d cl nc : nat, NoDup (akeys (star_nodes d cl nc)).
+Proof. exact star_nodes_NoDup. Qed.
+Print Assumptions C19_star_keys_distinct.
+
+Theorem C19_star_center : forall d cl nc : nat,
+  aget center_id (star_nodes d cl nc)
+  = Some {| parent := None;
+            children := if cl =? 0 then [] else map (fun c => arm_id (S nc) c 0) (seq 0 nc);
+            perm := seq 0 (S nc); shape := repeat 1 nc ++ [d] |}.
+Proof. exact star_nodes_center. Qed.
+Print Assumptions C19_star_center.
+
+Theorem C19_star_arm : forall d cl nc c j : nat, c < nc -> j < cl ->
+  aget (arm_id (S nc) c j) (star_nodes d cl nc)
+  = Some {| parent := Some (if j =? 0 then center_id else arm_id (S nc) c (j - 1));
+            children := if S j <? cl then [arm_id (S nc) c (S j)] else [];
+            perm := seq 0 (length (if j =? cl - 1 then [1; d] else [1; 1; d]));
+            shape := if j =? cl - 1 then [1; d] else [1; 1; d] |}.
+Proof. exact star_nodes_arm. Qed.
+Print Assumptions C19_star_arm.
+
+Theorem C19_star_chains : forall cl nc : nat,
+  star_chains cl nc = if cl =? 0 then [] else map (fun c => map (arm_id (S nc) c) (seq 0 cl)) (seq 0 nc).
+Proof. reflexivity. Qed.
+Print Assumptions C19_star_chains.
+
+(* FORK.  constant_ftps accepts every width, height, bond dimension >= 1 and every physical dimension;
+   identifiers are main_id N i / sub_id N i j with N = width * height + 1; the node dictionary is the closed
+   form fork_nodes (main chain first, then sub chain after sub chain), width * height nodes, the root is
+   main 0, main_chain / sub_chains are the documented lists, and the store invariant holds *)
+Theorem C19_fork_universal : forall (phys : nat) (width height bd : Z),
+  (1 <= width)%Z -> (1 <= height)%Z -> (1 <= bd)%Z ->
+  exists m, constant_ftps phys width height bd = Some m
+    /\ nodes (fst_ m) = fork_nodes (S (Z.to_nat width * Z.to_nat height)) phys (Z.to_nat width) (Z.to_nat height) (Z.to_nat bd)
+    /\ root (fst_ m) = Some (main_id (S (Z.to_nat width * Z.to_nat height)) 0)
+    /\ length (nodes (fst_ m)) = Z.to_nat width * Z.to_nat height
+    /\ mainc m = map (main_id (S (Z.to_nat width * Z.to_nat height))) (seq 0 (Z.to_nat height))
+    /\ subc m = map (fun i => map (sub_id (S (Z.to_nat width * Z.to_nat height)) i) (seq 0 (Z.to_nat width - 1)))
+                    (seq 0 (Z.to_nat height))
+    /\ flabels m = fork_labels (S (Z.to_nat width * Z.to_nat height)) (Z.to_nat width) (Z.to_nat height)
+    /\ wfb (fst_ m) = true.
+Proof. exact constant_ftps_univ. Qed.
+Print Assumptions C19_fork_universal.
+
+Theorem C19_fork_keys : forall N phys W H bd : nat,
+  akeys (fork_nodes N phys W H bd)
+  = map (main_id N) (seq 0 H) ++ flat_map (fun i => map (sub_id N i) (seq 0 (W - 1))) (seq 0 H).
+Proof. exact fork_nodes_keys. Qed.
+Print Assumptions C19_fork_keys.
+
+(* main-chain node i: parent = main (i-1) (none for the root); children, in the order the code produces
+   them: the next main-chain node (added first), then the head of its sub chain (width >= 2) *)
+Theorem C19_fork_main : forall N phys W H bd i : nat, 0 < N -> i < H ->
+  aget (main_id N i) (fork_nodes N phys W H bd)
+  = Some {| parent := if i =? 0 then None else Some (main_id N (i - 1));
+            children := (if S i <? H then [main_id N (S i)] else []) ++ (if 1 <? W then [sub_id N i 0] else []);
+            perm := seq 0 (length (fmain_shape phys H bd i)); shape := fmain_shape phys H bd i |}.
+Proof. exact fork_nodes_main. Qed.
+Print Assumptions C19_fork_main.
+
+Theorem C19_fork_sub : forall N phys W H bd i j : nat, W <= N -> i < H -> j < W - 1 ->
+  aget (sub_id N i j) (fork_nodes N phys W H bd)
+  = Some {| parent := Some (if j =? 0 then main_id N i else sub_id N i (j - 1));
+            children := if S j <? W - 1 then [sub_id N i (S j)] else [];
+            perm := seq 0 (length (fsub_shape phys W bd j)); shape := fsub_shape phys W bd j |}.
+Proof. exact fork_nodes_sub. Qed.
+Print Assumptions C19_fork_sub.
+
+Theorem C19_fork_shapes : forall phys W H bd i j : nat,
+  fmain_shape phys H bd i = (if orb (i =? 0) (i =? H - 1) then [bd; bd; phys] else [bd; bd; bd; phys])
+  /\ fsub_shape phys W bd j = (if j =? W - 2 then [bd; phys] else [bd; bd; phys]).
+Proof. intros; split; reflexivity. Qed.
+Print Assumptions C19_fork_shapes.
+
+(* BINARY.  replace_node keeps the store invariant whenever the new identifier is fresh *)
+Theorem C19_replace_node_wf : forall (s : store) (new old : nat) (shp : list nat) (s' : store),
+  Inv.wf s -> new <> old -> aget new (nodes s) = None ->
+  replace_node s new old shp = Some s' -> Inv.wf s'.
+Proof. exact replace_node_preserves_wf. Qed.
+Print Assumptions C19_replace_node_wf.
+
+(* generate_binary_ttns with n >= 2 physical sites and bond dimension >= 1 is accepted exactly when the
+   physical tensor has at least one leg and its first leg has the bond dimension (the fuel of the model's
+   loop suffices); 2n-1 nodes: the virtual nodes with heap indices 0 .. n-2 in breadth-first order, then the
+   sites 0 .. n-1 which replaced the leaves n-1 .. 2n-2 in queue order; the store invariant holds *)
+Theorem C19_binary_universal : forall (nphys bd : Z) (shp : list nat),
+  (2 <= nphys)%Z -> (1 <= bd)%Z -> 1 <= length shp -> nth 0 shp 0 = Z.to_nat bd ->
+  exists s, binary_ttns nphys bd shp = Some (s, bin_labels (Z.to_nat nphys))
+    /\ nodes s = bin_nodes (Z.to_nat bd) (Z.to_nat nphys) shp /\ root s = Some 0
+    /\ length (nodes s) = 2 * Z.to_nat nphys - 1
+    /\ wfb s = true.
+Proof. exact binary_ttns_univ. Qed.
+Print Assumptions C19_binary_universal.
+
+Theorem C19_binary_rejects : forall (nphys bd : Z) (shp : list nat),
+  (2 <= nphys)%Z -> (1 <= bd)%Z -> (length shp = 0 \/ nth 0 shp 0 <> Z.to_nat bd) ->
+  binary_ttns nphys bd shp = None.
+Proof. exact binary_ttns_rejects. Qed.
+Print Assumptions C19_binary_rejects.
+
+(* a single site: the root itself is replaced and any physical shape is accepted *)
+Theorem C19_binary_one_site : forall (bd : Z) (shp : list nat), (1 <= bd)%Z ->
+  exists s, binary_ttns 1 bd shp = Some (s, [(0, LVirt 0 0); (site_id 1 0, LSite 0)])
+    /\ nodes s = [(site_id 1 0, new_node shp)] /\ root s = Some (site_id 1 0) /\ wfb s = true.
+Proof. exact binary_ttns_one. Qed.
+Print Assumptions C19_binary_one_site.
+
+Theorem C19_binary_keys : forall (b n : nat) (shp : list nat),
+  akeys (bin_nodes b n shp) = seq 0 (n - 1) ++ map (site_id n) (seq 0 n).
+Proof. exact bin_nodes_keys. Qed.
+Print Assumptions C19_binary_keys.
+
+(* virtual node i (heap index): parent (i-1)/2, children 2i+1 and 2i+2 where a child that is a leaf
+   (heap index c >= n-1) appears under its site identifier site_id n (c - (n-1)) *)
+Theorem C19_binary_virtual : forall (b n : nat) (shp : list nat) (i : nat), i < n - 1 ->
+  aget i (bin_nodes b n shp)
+  = Some {| parent := if i =? 0 then None else Some ((i - 1) / 2);
+            children := [(if n - 1 <=? 2 * i + 1 then site_id n (2 * i + 1 - (n - 1)) else 2 * i + 1);
+                         (if n - 1 <=? 2 * i + 2 then site_id n (2 * i + 2 - (n - 1)) else 2 * i + 2)];
+            perm := seq 0 (length (if i =? 0 then [b; b; 1] else [b; b; b; 1]));
+            shape := if i =? 0 then [b; b; 1] else [b; b; b; 1] |}.
+Proof. exact bin_nodes_virtual. Qed.
+Print Assumptions C19_binary_virtual.
+
+Theorem C19_binary_site : forall (b n : nat) (shp : list nat) (i : nat), i < n ->
+  aget (site_id n i) (bin_nodes b n shp)
+  = Some {| parent := Some ((n - 1 + i - 1) / 2); children := []; perm := seq 0 (length shp); shape := shp |}.
+Proof. exact bin_nodes_site. Qed.
+Print Assumptions C19_binary_site.
+
+Theorem C19_binary_labels : forall n : nat,
+  bin_labels n = map (fun i => (i, LVirt (Nat.log2 (S i)) (S i - 2 ^ Nat.log2 (S i)))) (seq 0 (2 * n - 1))
+                 ++ map (fun i => (site_id n i, LSite i)) (seq 0 n).
+Proof. reflexivity. Qed.
+Print Assumptions C19_binary_labels.
+
 (* ---- non-vacuity ------------------------------------------------------------------------------------------ *)
 Example C19_example_mps :
   option_map (fun m => (map fst (nodes (mst m)), lefts m, rights m, wfb (mst m)))
@@ -204,3 +378,13 @@ Print Assumptions C19_example_mps.
 Example C19_example_grid : length (grid_pairs 3 4) = 17 /\ ft_perm (fun i => i) 3 (RNode 0 [RNode 1 []; RNode 2 []]) = [0; 3; 2; 5; 1; 4].
 Proof. vm_compute. split; reflexivity. Qed.
 Print Assumptions C19_example_grid.
+
+Example C19_example_universal :
+  option_map (fun mv => (nodes (sst (fst mv)), chains (fst mv))) (star_cps false 1 3 2 3)
+    = Some (star_nodes 3 2 3, [[1; 5]; [2; 6]; [3; 7]])
+  /\ option_map (fun m => (nodes (fst_ m), mainc m, subc m)) (constant_ftps 2 3 2 4)
+    = Some (fork_nodes 7 2 3 2 4, [0; 7], [[1; 2]; [8; 9]])
+  /\ option_map (fun sl => (nodes (fst sl), snd sl, wfb (fst sl))) (binary_ttns 5 2 [2; 3])
+    = Some (bin_nodes 2 5 [2; 3], bin_labels 5, true).
+Proof. vm_compute. repeat split; reflexivity. Qed.
+Print Assumptions C19_example_universal.
